@@ -237,3 +237,157 @@ func registerStringModels(e *Engine) {
 		return BSlice{cell, in.ctx.Const(64, 0), n, n}
 	})
 }
+
+// invokeMethod calls method name on the dynamic value of an interface.
+func (in *Interp) invokeMethod(fr *frame, iv Iface, name string, args ...Val) Val {
+	if iv.T == nil {
+		in.goPanicStr("invalid memory address or nil pointer dereference (method call on nil interface)")
+	}
+	ms := in.W.Prog.MethodSets.MethodSet(iv.T)
+	for i := 0; i < ms.Len(); i++ {
+		if ms.At(i).Obj().Name() == name {
+			f := in.W.Prog.MethodValue(ms.At(i))
+			return in.callFn(fr, f, append([]Val{iv.V}, args...))
+		}
+	}
+	panic(unsupported("no method " + name + " on " + iv.T.String()))
+}
+
+// ---- compressors: recording pass-through ----
+// A writer of codec X forwards everything it is given to the underlying writer, prefixed
+// once by the tag "X:" (GZ, FL = raw deflate, ZL = zlib, BR, ZS).  Harnesses check which
+// codec produced a body; "decodes under that coding" itself rests on the libraries.
+
+type compRec struct {
+	tag    string
+	w      Iface
+	tagged bool
+}
+
+func (in *Interp) compNew(fn *ssa.Function, tag string, w Val, withErr bool) Val {
+	res := fn.Signature.Results()
+	cell := new(Val)
+	*cell = in.zero(deref(res.At(0).Type()))
+	in.side[fmt.Sprintf("comp%p", cell)] = &compRec{tag: tag, w: w.(Iface)}
+	if withErr {
+		return Tuple{cell, Iface{}}
+	}
+	return cell
+}
+
+func (in *Interp) compWrite(fr *frame, recv Val, p Val, closing bool) Val {
+	q := nilCheck(in, recv)
+	r, _ := in.side[fmt.Sprintf("comp%p", q)].(*compRec)
+	if r == nil {
+		panic(unsupported("write on an unknown compressor object"))
+	}
+	if !r.tagged {
+		r.tagged = true
+		in.invokeMethod(fr, r.w, "Write", in.bytesOfStr(Str{S: r.tag + ":"}))
+	}
+	if closing {
+		return Iface{}
+	}
+	b := p.(BSlice)
+	in.invokeMethod(fr, r.w, "Write", b)
+	return Tuple{b.Len, Iface{}}
+}
+
+func registerCompressModels(e *Engine) {
+	type ctor struct {
+		name, tag string
+		withErr   bool
+	}
+	for _, c := range []ctor{
+		{"compress/gzip.NewWriterLevel", "GZ", true},
+		{"compress/flate.NewWriter", "FL", true},
+		{"compress/zlib.NewWriterLevel", "ZL", true},
+		{"github.com/andybalholm/brotli.NewWriterLevel", "BR", false},
+		{"github.com/klauspost/compress/zstd.NewWriter", "ZS", true},
+	} {
+		c := c
+		e.reg(c.name, func(in *Interp, fr *frame, fn *ssa.Function, a []Val) Val {
+			return in.compNew(fn, c.tag, a[0], c.withErr)
+		})
+	}
+	e.reg("compress/gzip.NewWriter", func(in *Interp, fr *frame, fn *ssa.Function, a []Val) Val { return in.compNew(fn, "GZ", a[0], false) })
+	e.reg("compress/zlib.NewWriter", func(in *Interp, fr *frame, fn *ssa.Function, a []Val) Val { return in.compNew(fn, "ZL", a[0], false) })
+	e.reg("github.com/andybalholm/brotli.NewWriter", func(in *Interp, fr *frame, fn *ssa.Function, a []Val) Val { return in.compNew(fn, "BR", a[0], false) })
+	e.reg("github.com/klauspost/compress/zstd.WithEncoderLevel", func(in *Interp, fr *frame, fn *ssa.Function, a []Val) Val {
+		return (*ssa.Function)(nil)
+	})
+	for _, t := range []string{"compress/gzip.Writer", "compress/flate.Writer", "compress/zlib.Writer", "github.com/andybalholm/brotli.Writer", "github.com/klauspost/compress/zstd.Encoder"} {
+		e.reg("(*"+t+").Write", func(in *Interp, fr *frame, fn *ssa.Function, a []Val) Val { return in.compWrite(fr, a[0], a[1], false) })
+		e.reg("(*"+t+").Close", func(in *Interp, fr *frame, fn *ssa.Function, a []Val) Val { return in.compWrite(fr, a[0], nil, true) })
+	}
+	// json.Encoder: Encode(v) writes the recording text of v plus a newline
+	e.reg("encoding/json.NewEncoder", func(in *Interp, fr *frame, fn *ssa.Function, a []Val) Val {
+		cell := new(Val)
+		*cell = in.zero(deref(fn.Signature.Results().At(0).Type()))
+		in.side[fmt.Sprintf("jenc%p", cell)] = a[0]
+		return cell
+	})
+	e.reg("(*encoding/json.Encoder).Encode", func(in *Interp, fr *frame, fn *ssa.Function, a []Val) Val {
+		q := nilCheck(in, a[0])
+		w, _ := in.side[fmt.Sprintf("jenc%p", q)].(Iface)
+		txt := in.jsonRecord(a[1])
+		in.invokeMethod(fr, w, "Write", in.bytesOfStr(Str{S: txt.S + "\n"}))
+		return Iface{}
+	})
+	// verif.JSONText(b): the Go string whose JSON encoding is b
+	e.reg(verifPkg+".JSONText", func(in *Interp, fr *frame, fn *ssa.Function, a []Val) Val {
+		rec, ok := in.jsonLookup(a[0])
+		if iv, isI := rec.(Iface); ok && isI {
+			if s, isS := iv.V.(Str); isS {
+				return Tuple{s, in.ctx.True}
+			}
+		}
+		return Tuple{Str{}, in.ctx.False}
+	})
+}
+
+// (*net/http.Cookie).String for well-formed cookies (valid name, plain value): the
+// documented serialisation Name=Value; Path=..; Domain=..; Max-Age=..; HttpOnly; Secure; SameSite=..
+// (net/http's validity tables live in package initialisers that are not executed).
+func registerCookieModel(e *Engine) {
+	e.reg("(*net/http.Cookie).String", func(in *Interp, fr *frame, fn *ssa.Function, a []Val) Val {
+		p := nilCheck(in, a[0])
+		rt := recvT(fn)
+		str := func(name string) Str { s, _ := (*fieldCell(p, rt, name)).(Str); return s }
+		out := in.strConcat(in.strConcat(str("Name"), Str{S: "="}), str("Value"))
+		if s := str("Path"); s.Len() > 0 {
+			out = in.strConcat(in.strConcat(out, Str{S: "; Path="}), s)
+		}
+		if s := str("Domain"); s.Len() > 0 {
+			out = in.strConcat(in.strConcat(out, Str{S: "; Domain="}), s)
+		}
+		if ma := (*fieldCell(p, rt, "MaxAge")).(*smt.Term); ma.IsConst() {
+			if v := ma.SVal(); v > 0 {
+				out = in.strConcat(out, Str{S: fmt.Sprintf("; Max-Age=%d", v)})
+			} else if v < 0 {
+				out = in.strConcat(out, Str{S: "; Max-Age=0"})
+			}
+		} else {
+			panic(unsupported("Cookie.String with symbolic MaxAge"))
+		}
+		flag := func(name string) bool {
+			t := (*fieldCell(p, rt, name)).(*smt.Term)
+			return in.Branch(t)
+		}
+		if flag("HttpOnly") {
+			out = in.strConcat(out, Str{S: "; HttpOnly"})
+		}
+		if flag("Secure") {
+			out = in.strConcat(out, Str{S: "; Secure"})
+		}
+		switch in.concInt(*fieldCell(p, rt, "SameSite")) {
+		case 2:
+			out = in.strConcat(out, Str{S: "; SameSite=Lax"})
+		case 3:
+			out = in.strConcat(out, Str{S: "; SameSite=Strict"})
+		case 4:
+			out = in.strConcat(out, Str{S: "; SameSite=None"})
+		}
+		return out
+	})
+}
